@@ -41,6 +41,7 @@ pub enum RecognizerError {
   CanvasRectangleNotClosed(Point, Point),
   CanvasRegionNotFound(Rect),
   PlaneIsEmpty,
+  PlaneIsNotRectangular,
   PlaneRowIsOutOfRange,
   PlaneColumnIsOutOfRange,
   PlaneNoMainDoubleCrossing,
@@ -82,6 +83,9 @@ impl std::fmt::Display for RecognizerError {
       }
       RecognizerError::PlaneIsEmpty => {
         write!(f, "plane is empty")
+      }
+      RecognizerError::PlaneIsNotRectangular => {
+        write!(f, "plane is not rectangular")
       }
       RecognizerError::PlaneRowIsOutOfRange => {
         write!(f, "plane row is out of range")
@@ -153,6 +157,10 @@ pub fn canvas_region_not_found(r: Rect) -> DmntkError {
 
 pub fn plane_is_empty() -> DmntkError {
   RecognizerError::PlaneIsEmpty.into()
+}
+
+pub fn plane_is_not_rectangular() -> DmntkError {
+  RecognizerError::PlaneIsNotRectangular.into()
 }
 
 pub fn plane_cell_is_not_region(details: &str) -> DmntkError {
